@@ -4,7 +4,11 @@
 //!       source texts added one after another to the same builder (schema and executable side);
 //!  (ii) a history  vs  the same history with a type/schema *definition* relocated behind the
 //!       k-th of the extensions that follow it (the definition jumps only over non-definitions;
-//!       extensions never move relative to each other).
+//!       extensions never move relative to each other);
+//!  (iii) a history  vs  the same history with one *extension* that stands before the definition of
+//!       its target moved to just behind that definition (no same-target extension in between);
+//!  (iv) (i)-(iii) again under `SchemaBuilder::adopt_orphan_extensions()` for the histories in
+//!       which extensions of at least two types arrive before any definition of their type.
 
 use apollo_compiler::validation::{DiagnosticList, Valid};
 use apollo_compiler::{ExecutableDocument, Schema};
@@ -147,7 +151,25 @@ fn schema_case(h: &[usize], kf_open: bool, st: &mut Stats) -> Option<u128> {
                 ));
             }
         }
-        (base, relocs.len(), runs, fails, known)
+        let erelocs = hist::ext_relocations(MENU, h);
+        for (p, d, moved) in &erelocs {
+            let moved_text = hist::render_history(MENU, moved);
+            let o = observe(&[moved_text.as_str()]);
+            runs += 1;
+            let what = format!("extension {:?} moved behind its definition {:?}: {:?}", MENU[h[*p]].text, MENU[h[*d]].text, hist::show_history(MENU, moved));
+            if o.text != base.text || o.fp != base.fp {
+                let diff = if o.text != base.text {
+                    format!("{:?} vs {:?}", vcore::short(&o.text), vcore::short(&base.text))
+                } else {
+                    o.fp.first_difference(&base.fp)
+                };
+                fails.push(("ext-relocation-schema".into(), format!("{what}: built schema differs: {diff}")));
+            }
+            if hist::sorted(o.messages.clone()) != hist::sorted(base.messages.clone()) {
+                fails.push(("ext-relocation-diagnostics".into(), format!("{what}: diagnostics {:?}, original {:?}", o.messages, base.messages)));
+            }
+        }
+        (base, relocs.len() + erelocs.len(), runs, fails, known)
     });
     let (base, nreloc, runs, fails, known) = match r {
         Ok(x) => x,
@@ -192,6 +214,132 @@ fn schema_case(h: &[usize], kf_open: bool, st: &mut Stats) -> Option<u128> {
         st.count(&format!("diag: {class}"), 1);
     }
     Some(canon)
+}
+
+
+// ---------------------------------------------------------------------------------------------
+// schema side, SchemaBuilder::adopt_orphan_extensions() mode
+// ---------------------------------------------------------------------------------------------
+
+fn observe_adopt<S: AsRef<str>>(texts: &[S]) -> Obs {
+    let mut b = Schema::builder().adopt_orphan_extensions();
+    for (i, t) in texts.iter().enumerate() {
+        b = b.parse(t.as_ref(), format!("s{i}.graphql"));
+    }
+    let (schema, messages) = match b.build() {
+        Ok(schema) => (schema, Vec::new()),
+        Err(e) => {
+            let m = e.errors.iter().map(|d| d.error.to_string()).collect();
+            (e.partial, m)
+        }
+    };
+    Obs { text: schema.to_string(), fp: hist::fingerprint(&schema, false), messages }
+}
+
+/// Same differential as `schema_case` under `adopt_orphan_extensions()`: extensions whose type is
+/// never defined become definitions at build time, so the queue of orphans is observable in the
+/// order of the built type map.
+fn schema_case_adopt(h: &[usize], st: &mut Stats) {
+    st.states += 1;
+    let case = || json!({"part": "schema-adopt", "history": h, "text": hist::render_history(MENU, h)});
+    let texts = hist::history_texts(MENU, h);
+    let whole = hist::render_history(MENU, h);
+    let r = vcore::catch(|| {
+        let mut fails: Vec<(String, String)> = Vec::new();
+        let mut runs = 1u64;
+        let base = observe_adopt(&[whole.as_str()]);
+        for mask in 1..hist::split_count(h.len()) {
+            let parts = hist::split_texts(&texts, mask);
+            let o = observe_adopt(&parts);
+            runs += 1;
+            if o.text != base.text || o.fp != base.fp {
+                fails.push((
+                    "adopt:split-schema".into(),
+                    format!("sources {parts:?}: built schema differs from the concatenation's: {:?} vs {:?}", vcore::short(&o.text), vcore::short(&base.text)),
+                ));
+            }
+            if o.messages != base.messages {
+                fails.push(("adopt:split-diagnostics".into(), format!("sources {parts:?}: diagnostics {:?}, concatenation {:?}", o.messages, base.messages)));
+            }
+        }
+        let relocs = hist::relocations(MENU, h);
+        for rl in &relocs {
+            let moved_text = hist::render_history(MENU, &rl.hist);
+            let o = observe_adopt(&[moved_text.as_str()]);
+            runs += 1;
+            let what = format!(
+                "definition {:?} moved behind {:?}: {:?}",
+                MENU[h[rl.from]].text,
+                MENU[h[rl.after]].text,
+                hist::show_history(MENU, &rl.hist)
+            );
+            if o.text != base.text || o.fp != base.fp {
+                let diff = if o.text != base.text {
+                    format!("{:?} vs {:?}", vcore::short(&o.text), vcore::short(&base.text))
+                } else {
+                    o.fp.first_difference(&base.fp)
+                };
+                fails.push(("adopt:relocation-schema".into(), format!("{what}: built schema differs: {diff}")));
+            }
+            if hist::sorted(o.messages.clone()) != hist::sorted(base.messages.clone()) {
+                fails.push(("adopt:relocation-diagnostics".into(), format!("{what}: diagnostics {:?}, original {:?}", o.messages, base.messages)));
+            }
+        }
+        let erelocs = hist::ext_relocations(MENU, h);
+        for (p, d, moved) in &erelocs {
+            let moved_text = hist::render_history(MENU, moved);
+            let o = observe_adopt(&[moved_text.as_str()]);
+            runs += 1;
+            let what = format!("extension {:?} moved behind its definition {:?}: {:?}", MENU[h[*p]].text, MENU[h[*d]].text, hist::show_history(MENU, moved));
+            if o.text != base.text || o.fp != base.fp {
+                let diff = if o.text != base.text {
+                    format!("{:?} vs {:?}", vcore::short(&o.text), vcore::short(&base.text))
+                } else {
+                    o.fp.first_difference(&base.fp)
+                };
+                fails.push(("adopt:ext-relocation-schema".into(), format!("{what}: built schema differs: {diff}")));
+            }
+            if hist::sorted(o.messages.clone()) != hist::sorted(base.messages.clone()) {
+                fails.push(("adopt:ext-relocation-diagnostics".into(), format!("{what}: diagnostics {:?}, original {:?}", o.messages, base.messages)));
+            }
+        }
+        (base.messages.len(), relocs.len() + erelocs.len(), runs, fails)
+    });
+    match r {
+        Err(p) => st.fail_simple("adopt:panic", case(), format!("building panicked: {p}"), hist_size(h)),
+        Ok((ndiag, nreloc, runs, fails)) => {
+            st.transitions += runs;
+            st.nontrivial += 1;
+            for (sig, detail) in &fails {
+                st.fail_simple(sig, case(), detail.clone(), hist_size(h));
+            }
+            if fails.is_empty() {
+                st.outcome(&format!(
+                    "schema (adopt orphans): {}, splits agree, {}",
+                    if ndiag == 0 { "no diagnostics" } else { "diagnostics" },
+                    if nreloc > 0 { "relocations agree" } else { "no relocation applicable" }
+                ));
+            }
+        }
+    }
+}
+
+/// Histories in which extensions of at least two different types arrive before (or without) a
+/// definition of their target: the orphan queue then has an order to get wrong.
+fn has_orphan_on_arrival(h: &[usize]) -> bool {
+    let mut targets: Vec<&str> = h
+        .iter()
+        .enumerate()
+        .filter(|(p, &i)| {
+            MENU[i].role == Role::Ext
+                && MENU[i].target != "schema"
+                && !h[..*p].iter().any(|&j| MENU[j].role == Role::Def && MENU[j].target == MENU[i].target)
+        })
+        .map(|(_, &i)| MENU[i].target)
+        .collect();
+    targets.sort();
+    targets.dedup();
+    targets.len() >= 2
 }
 
 // ---------------------------------------------------------------------------------------------
@@ -323,6 +471,7 @@ fn run_case(case: &Value, kf_open: bool, st: &mut Stats) {
     let h = history_of(case);
     match case["part"].as_str() {
         Some("executable") => exec_case(&h, st),
+        Some("schema-adopt") => schema_case_adopt(&h, st),
         _ => {
             schema_case(&h, kf_open, st);
         }
@@ -344,7 +493,7 @@ fn main() {
         chk.finish_replay();
     }
     // schema side
-    let depth = chk.tier().pick(4u32, 5u32);
+    let depth = 4u32;
     let k = MENU.len();
     let total = hist::history_count(k, depth);
     let (stats, canon): (Stats, BTreeSet<u128>) = hist::par_sweep_acc(
@@ -359,11 +508,48 @@ fn main() {
             if let Some(c) = schema_case(&h, kf_open, st) {
                 acc.insert(c);
             }
+            if has_orphan_on_arrival(&h) {
+                st.count("schema_histories_in_adopt_mode", 1);
+                schema_case_adopt(&h, st);
+            }
         },
         hist::merge_sets,
     );
     chk.absorb(stats);
     println!("schema histories {total} (depth <= {depth}), distinct canonical states (fingerprint + diagnostics) {}", canon.len());
+    // thorough tier: depth 5 and 6 over a core sub-menu (one type with all its extension forms, a
+    // second and third extended type, the schema definition and its extensions, a mismatched and a
+    // duplicate item) - the full menu at depth 5 is 12 M histories x splits x relocations
+    let mut deep = json!(null);
+    if chk.tier() == vcore::Tier::Thorough {
+        const CORE: &[usize] = &[0, 1, 2, 3, 4, 5, 9, 10, 11, 16, 17, 18, 22, 24];
+        for (sub, d) in [(&CORE[..], 5u32), (&CORE[..9], 6u32)] {
+            let kk = sub.len();
+            let lo = hist::history_count(kk, 4);
+            let hi = hist::history_count(kk, d);
+            let (stats, _c): (Stats, BTreeSet<u128>) = hist::par_sweep_acc(
+                hi - lo,
+                256,
+                |i, st, acc: &mut BTreeSet<u128>| {
+                    let mut hh = Vec::new();
+                    hist::nth_history(kk, lo + i, &mut hh);
+                    let h: Vec<usize> = hh.iter().map(|&x| sub[x]).collect();
+                    if let Some(c) = schema_case(&h, kf_open, st) {
+                        acc.insert(c);
+                    }
+                    if has_orphan_on_arrival(&h) {
+                        st.count("schema_histories_in_adopt_mode", 1);
+                        schema_case_adopt(&h, st);
+                    }
+                },
+                hist::merge_sets,
+            );
+            chk.absorb(stats);
+            println!("deep schema histories: {} of length 5..={d} over {kk} core items", hi - lo);
+            chk.stats.count(&format!("deep_schema_histories_len5to{d}_over_{kk}_items"), hi - lo);
+        }
+        deep = json!({"core_items": CORE.iter().map(|&i| MENU[i].text).collect::<Vec<_>>(), "lengths": "5 over all 14 core items, 5..=6 over the first 9"});
+    }
     // executable side
     let edepth = chk.tier().pick(4u32, 5u32);
     let ek = EXEC_MENU.len();
@@ -384,10 +570,11 @@ fn main() {
     chk.bounds = json!({
         "schema_menu": MENU.iter().map(|i| i.text).collect::<Vec<_>>(),
         "schema_max_depth": depth,
+        "schema_deep_part": deep,
         "schema_histories": total,
         "schema_distinct_canonical_states": canon.len(),
         "splits_per_history": "all 2^(n-1)",
-        "relocations": "every type/schema definition behind each following extension of the same target, jumping over non-definitions only",
+        "relocations": "every type/schema definition behind each following extension of the same target, jumping over non-definitions only; every extension that precedes the definition of its target moved to just behind it",
         "executable_schema": EXEC_SCHEMA,
         "executable_menu": EXEC_MENU,
         "executable_max_depth": edepth,
@@ -402,7 +589,7 @@ fn main() {
         "diagnostics are compared by message text (locations legitimately differ between one file and several)".into(),
         "relocation compares diagnostics as a multiset (locations move, so the sorted order may)".into(),
         "relocated definitions never jump over another definition (type-map order would legitimately change)".into(),
-        "SchemaBuilder::adopt_orphan_extensions / ignore_builtin_redefinitions modes are not explored".into(),
+        "SchemaBuilder::adopt_orphan_extensions() is explored on the histories in which extensions of at least two types arrive before any definition of their type; ignore_builtin_redefinitions is not explored".into(),
     ];
     chk.finish(&|case| {
         let mut st = Stats::default();
